@@ -243,8 +243,12 @@ asn_parse(uint8_t *buf, size_t buf_size, size_t *offset, size_t *hdr_size,
 		}
 	}
 	dt = cur_pos;
+	/* Data must be inside buf, for short length form too. */
+	if (((size_t)(max_pos - cur_pos)) < dt_size)
+		return (EBADMSG);
 	/* Flags check. */
 	if (ASN_ID_CLASS_UNIVERSAL == cls &&
+	    sizeof(asn_class_uni_ps) > tag && /* Long form tag can be out of table. */
 	    (ASN_ID_F_PC != asn_class_uni_ps[tag] && f_ps != asn_class_uni_ps[tag]))
 		return (EBADMSG);
 	/* Ok, return. */
